@@ -44,6 +44,34 @@ impl From<serde_yaml::Value> for Value {
     }
 }
 
+impl Value {
+    /// Converts a `serde_yaml::Value` into a `Value`, returning an error for YAML values which
+    /// can't be represented as a `Value`.
+    ///
+    /// In contrast to `Value::from()`, this function doesn't panic for unsupported YAML values
+    /// (e.g. `serde_yaml::Tagged`), and is suitable for converting data which is read from
+    /// inventory files.
+    pub(crate) fn try_from_yaml(v: serde_yaml::Value) -> anyhow::Result<Self> {
+        Ok(match v {
+            serde_yaml::Value::Sequence(s) => {
+                let mut seq: Vec<Value> = Vec::with_capacity(s.len());
+                for v in s {
+                    seq.push(Value::try_from_yaml(v)?);
+                }
+                Self::Sequence(seq)
+            }
+            serde_yaml::Value::Mapping(m) => Self::Mapping(Mapping::try_from_yaml(m)?),
+            serde_yaml::Value::Tagged(t) => {
+                return Err(anyhow::anyhow!(
+                    "Tagged YAML values are not supported yet, found tag '{}'",
+                    t.tag
+                ));
+            }
+            v => Self::from(v),
+        })
+    }
+}
+
 impl From<Value> for serde_yaml::Value {
     /// Converts a `Value` into a `serde_yaml::Value`.
     ///
